@@ -10,7 +10,7 @@
 #include <algorithm>
 
 struct PCase { Mat X; int scaling, npc, nproc, transform; double rho_gen; };
-struct POut { Mat scores, loadings, E, recon, pscores; std::vector<double> varexp, avg, scale; };
+struct POut { Mat scores, loadings, E, recon, pscores, resid; std::vector<double> varexp, avg, scale; };
 struct PCall { const Mat *X; int scaling, npc; POut *o; bool extras; };
 
 static void call_pca(void *a_) {
@@ -26,6 +26,9 @@ static void call_pca(void *a_) {
     matrix *ps; initMatrix(&ps);
     PCAScorePredictor(x, m, (size_t)a.npc, ps);
     o.pscores = from_matrix(ps); DelMatrix(&ps);
+    matrix *rm; initMatrix(&rm);
+    GetResidualMatrix(x, m, (size_t)a.npc, rm);
+    o.resid = from_matrix(rm); DelMatrix(&rm);
   }
   DelPCAModel(&m); DelMatrix(&x);
 }
@@ -189,6 +192,10 @@ struct HPca : Harness {
         for (int i = 0; i < n; i++) for (int j = 0; j < pp; j++) Ek[i][j] -= T[k][i] * P[k][j];
       }
       for (int k = 0; k < npc && !o.violation; k++) { LD s = 0; for (int i = 0; i < n; i++) { LD d = ldot(Ek[i], P[k]); s += d * d; } if (sqrtl(s) > 1e-8L * (en + 1e-300L)) { char m[200]; snprintf(m, sizeof m, "residual is not orthogonal to loading %d: |R p| = %.3Lg, |E| = %.3Lg", k, sqrtl(s), en); o.fail("residual-not-orthogonal", m); } }
+      // the library's own residual accessor must return that residual (and hence be orthogonal to every extracted loading)
+      if (!o.violation && M.resid.size() == (size_t)n && M.resid[0].size() == (size_t)pp) {
+        for (int i = 0; i < n && !o.violation; i++) for (int j = 0; j < pp; j++) if (fabsl((LD)M.resid[i][j] - Ek[i][j]) > 1e-8L * (en + 1e-300L)) { char m[240]; snprintf(m, sizeof m, "GetResidualMatrix[%d][%d]=%.12g but preprocessed data - scores x loadings^T = %.12Lg (scaling %d, %d components)", i, j, M.resid[i][j], Ek[i][j], scaling, npc); o.fail("residual-accessor", m); break; }
+      } else if (!o.violation) o.fail("shape", "GetResidualMatrix: wrong shape");
       // variance bookkeeping, tolerance derived from the documented criterion (see DESIGN.md)
       double tau = 200.0 * npc * sqrt((double)n * DOC_PCA_CRITERION), sum = 0;
       for (int k = 0; k < npc && !o.violation; k++) {
